@@ -9,7 +9,26 @@
    literal, compressed, IPv4-mapped, with a %zone);  port_ok p : non-empty, no
    ':' '[' ']'  (all decimal port numbers in particular, see C20_ports_are_ok).
    The bare IPv6 literal directly followed by ":port" is outside every statement,
-   as in the property. *)
+   as in the property: no theorem below has a hypothesis that such a string meets
+   as "literal + port" (T5 / C20_dial_bare_v6 / C20_checker_bare_v6 take the WHOLE
+   string x as the literal; a string like "::1:5222", which is an IPv6 literal as it
+   stands, is inside them as that literal, without port).  A string that is not an
+   IPv6 literal as a whole but an unbracketed IPv6 literal followed by ":digits"
+   (":::1", "1:2:3:4:5:6:7:8:5222") is therefore none of the forms of T1-T5; the
+   correspondence run compares model and code on such strings - as on addresses with
+   white space at either end - by a constant only (harness/c20.go c20Excluded), i.e.
+   by what the property fixes about them: nothing.  Only C20_ensure_port_idempotent
+   and C20_T6_* are stated for every string; the first is a fact about the model
+   where the model is not compared.
+
+   "Valid, dialable host:port" means here: net.SplitHostPort accepts it and returns
+   exactly the given host and the given-or-default port.  Nothing is claimed about
+   resolving the host or the port (net.LookupPort of a service name the user wrote is
+   the user's business; a default port prints as digits, C20_ports_are_ok).
+   "host:" and "[v6]:" - a separator with an EMPTY port - are neither "with" nor
+   "without a port" in the property's quantifier (port present / absent, all port
+   NUMBERS) and port_ok excludes them; C20_empty_port_not_defaulted states what the code
+   does with them, since transports and certificate checker differ there. *)
 From Coq Require Import List ZArith NArith Bool.
 From XV Require Import Lib.Sx Model.Addr Proofs.AddrP Gen.Generated.
 Import ListNotations.
@@ -57,6 +76,14 @@ Proof. intros n. split; [exact (itoa_port_ok n)|exact (itoa_nonneg_digits n)]. Q
 Theorem C20_default_port : default_port = itoa 5222 /\ default_port = [53; 50; 50; 50]%N.
 Proof. exact default_port_is_5222. Qed.
 
+(* The SRV path (client.go: config.Address = ensurePort(srv.Target, srv.Port), then
+   NewClientTransport applies ensurePort(.., 5222) again): a second application never
+   changes the result of a first one - for EVERY address string and every two port
+   numbers, not only for the host forms. *)
+Theorem C20_ensure_port_idempotent : forall (a : str) (n m : Z),
+  ensure_port (ensure_port a n) m = ensure_port a n.
+Proof. exact ensure_port_idem. Qed.
+
 (* T6: an address with a ws / wss scheme - the letters in any case, followed by
    "://" (s_sep) - gives the WebSocket transport for clients (address untouched)
    and a refusal for components; every other address gives the TCP transport
@@ -101,6 +128,34 @@ Theorem C20_ws_named_host : forall p : str, digits p = true ->
   dials (sch_ws ++ c_colon :: p) sch_ws p /\ dials (sch_wss ++ c_colon :: p) sch_wss p.
 Proof. exact ws_named_host_dials. Qed.
 
+(* SRV: a portless host completed with the SRV port n is dialled at exactly that host
+   and port n - 5222 is not added a second time (srv.Target is a DNS name; the IPv6
+   forms are stated for completeness). *)
+Theorem C20_dial_srv :
+  (forall (h : str) (n : Z), name_or_v4 h = true -> dials (ensure_port h n) h (itoa n)) /\
+  (forall (x : str) (n : Z), v6 x = true -> dials (ensure_port x n) x (itoa n)) /\
+  (forall (x : str) (n : Z), v6 x = true -> dials (ensure_port (c_lbr :: x ++ [c_rbr]) n) x (itoa n)).
+Proof. split; [exact dial_srv_name|]. split; [exact dial_srv_bare_v6|exact dial_srv_bracketed_v6]. Qed.
+
+(* Outside the property's forms, stated because the two halves of the library differ:
+   "host:" and "[v6]:" (empty port).  Both transports keep the address as it is - a
+   SplitHostPort-valid host:port with the empty port, which net.Dial resolves to port 0,
+   NOT 5222 - while the certificate checker reads the empty port as "no port" and dials
+   5222. *)
+Theorem C20_empty_port_not_defaulted :
+  (forall h : str, name_or_v4 h = true ->
+     client_transport (h ++ [c_colon]) = Tcp (h ++ [c_colon]) /\
+     component_transport (h ++ [c_colon]) = Tcp (h ++ [c_colon]) /\
+     split_host_port (h ++ [c_colon]) = SplitOk h [] /\
+     checker_params (h ++ [c_colon]) = Some (h ++ c_colon :: itoa 5222, h)) /\
+  (forall x : str, v6 x = true ->
+     client_transport (c_lbr :: x ++ [c_rbr; c_colon]) = Tcp (c_lbr :: x ++ [c_rbr; c_colon]) /\
+     component_transport (c_lbr :: x ++ [c_rbr; c_colon]) = Tcp (c_lbr :: x ++ [c_rbr; c_colon]) /\
+     split_host_port (c_lbr :: x ++ [c_rbr; c_colon]) = SplitOk x [] /\
+     checker_params (c_lbr :: x ++ [c_rbr; c_colon])
+       = Some (c_lbr :: x ++ c_rbr :: c_colon :: itoa 5222, x)).
+Proof. split; [exact empty_port_name|exact empty_port_bracketed]. Qed.
+
 (* the certificate checker (NewChecker) accepts every form and dials the same
    host:port ([checks a h p]: accepted, host h, dial address splits into h and p) *)
 Theorem C20_checker_host_without_port : forall h : str,
@@ -138,6 +193,8 @@ Example C20_example :
   client_transport (sch_ws ++ c_colon :: ex_port) = Tcp (sch_ws ++ c_colon :: ex_port) /\
   checker_params (c_lbr :: ex_v6m ++ c_rbr :: c_colon :: ex_port)
     = Some (c_lbr :: ex_v6m ++ c_rbr :: c_colon :: ex_port, ex_v6m) /\
+  (* SRV: "a-1.example." completed with port 5269, then handed to the constructor *)
+  client_transport (ensure_port ex_name 5269) = Tcp (ex_name ++ c_colon :: itoa 5269) /\
   (* outside the statement: bare IPv6 directly followed by ":port" *)
   ensure_port (ex_v6m ++ c_colon :: ex_port) 5222
     = c_lbr :: (ex_v6m ++ c_colon :: ex_port) ++ c_rbr :: c_colon :: default_port.
@@ -150,6 +207,9 @@ Print Assumptions C20_T4_bracketed_v6_with_port.
 Print Assumptions C20_T5_bare_v6.
 Print Assumptions C20_ports_are_ok.
 Print Assumptions C20_default_port.
+Print Assumptions C20_ensure_port_idempotent.
+Print Assumptions C20_dial_srv.
+Print Assumptions C20_empty_port_not_defaulted.
 Print Assumptions C20_T6_scheme.
 Print Assumptions C20_T6_no_scheme.
 Print Assumptions C20_dial_host_without_port.
